@@ -437,7 +437,7 @@ ASSUMPTIONS = [
     "A6 warnings.warn does not raise",
 ]
 NOT_COVERED = {
-    "C13": ["compound locations (_lift_over_chromosome_location_compound_interval)", "incorporate_variants end-to-end",
+    "C13": ["incorporate_variants end-to-end",
             "collections of more than two variants (induction over the composition lemma)",
             "VCF records grouped by phase set (io/vcf/parser.py needs PyVCF and io.models: neither importable)"],
     "C18": ["GenBank features grouped by locus tag under permutation of records (io/genbank/parser.py does not import "
